@@ -225,6 +225,16 @@ func main() {
 		"trie2_walks_the_collapsed_copy": c.cfg2[3] == '1', "trie2_refuses_keys_above_2_251": c.cfg2[4] == '1',
 		"legacy_refuses_keys_above_2_251": c.cfgL[4] == '1'})
 
+	// The repaired verifiers (commits aab3e5b, dbf9f09, 616d4a4) are THE model now: `Cfg.strict`. The
+	// probes still select the variant for the driver (so that a regressed tree is compared with the
+	// model of what it does and every section reports the failing inputs), and a variant other than
+	// the repaired one is itself a violation — unlisted, so the check fails.
+	if c.cfg2 != "00111" || c.cfgL != "00101" {
+		res.Violate(lib.Violation{Sig: "verifier-variant-is-not-the-repaired-one:trie2=" + c.cfg2 + ":legacy=" + c.cfgL,
+			What: fmt.Sprintf("the probes of VerifyProof find variant trie2=%s legacy=%s (digits: trusts cached hash, value node ends the walk early, "+
+				"zero root = empty trie, walk on the collapsed copy, key < 2^251 checked); the repaired code is 00111 / 00101: a fix has been undone", c.cfg2, c.cfgL),
+			Replay: map[string]any{"section": "probe", "trie2": c.cfg2, "legacy": c.cfgL}})
+	}
 	if f.Replay != "" {
 		c.replay(f.Replay)
 		lib.Finish(f, res)
@@ -232,7 +242,7 @@ func main() {
 
 	// watchdog: a harness that does not finish is reported, never silently green
 	go func() {
-		time.Sleep(time.Duration(f.Scale(480, 2700)) * time.Second)
+		time.Sleep(time.Duration(f.Scale(480, 5400)) * time.Second)
 		res.Fatalf("watchdog: the harness did not finish within its own time limit")
 		lib.Finish(f, res)
 	}()
